@@ -6,6 +6,13 @@
 (*  [op |-> "exec", d, uid, tid, fired]     tid/uid as written on the wire  *)
 (*  [op |-> "reply", tid, uid, fired]        a well-formed reply arrives     *)
 (*  [op |-> "lost", fired]                   connection lost                *)
+(*  [op |-> "cancel", d, fired]              the application cancels the    *)
+(*                                           deferred of request d: it fails *)
+(*                                           at once (code 1004) and never   *)
+(*                                           again; its reply, when it comes,*)
+(*                                           fires nothing and disturbs      *)
+(*                                           nobody (it still takes its turn *)
+(*                                           on a serial line)               *)
 (*  [op |-> "wrap", to]                      the tid counter is preset      *)
 (*                                           (stands for 65535 completed    *)
 (*                                           requests in between)           *)
@@ -15,12 +22,12 @@
 (***************************************************************************)
 EXTENDS Naturals, Sequences, FiniteSets, TLC, Json, IOUtils
 Traces == JsonDeserialize(IOEnv.TRACE_FILE).traces
-VARIABLES tr, i, pending, fifo, connected, firedSet, issued, out
-vars == <<tr, i, pending, fifo, connected, firedSet, issued, out>>
+VARIABLES tr, i, pending, fifo, connected, firedSet, issued, cancelled, out
+vars == <<tr, i, pending, fifo, connected, firedSet, issued, cancelled, out>>
 T == Traces[tr]
 Seq2Set(s) == {s[k] : k \in 1..Len(s)}
 Init == /\ tr \in 1..Len(Traces) /\ i = 1 /\ pending = <<>> /\ fifo = <<>> /\ connected = TRUE
-        /\ firedSet = {} /\ issued = {} /\ out = "run"
+        /\ firedSet = {} /\ issued = {} /\ cancelled = {} /\ out = "run"
 
 Eval(ev) ==
   LET obs == Seq2Set(ev.fired)
@@ -42,19 +49,22 @@ Eval(ev) ==
     [] ev.op = "reply" ->
          IF T.variant = "dict"
          THEN LET hit == ev.tid \in DOMAIN pending
-                  exp == IF hit THEN {<<pending[ev.tid], ev.tid>>} ELSE {} IN
+                  exp == IF hit /\ pending[ev.tid] \notin cancelled THEN {<<pending[ev.tid], ev.tid>>} ELSE {} IN
               [fail |-> twice \cup dupIn \cup (IF obs # exp THEN {IF hit THEN "Match" ELSE "Unsolicited"} ELSE {}),
                pending |-> IF hit THEN [x \in (DOMAIN pending) \ {ev.tid} |-> pending[x]] ELSE pending,
                fifo |-> fifo, connected |-> connected, issued |-> issued]
          ELSE LET hit == fifo # <<>> /\ Head(fifo)[2] = ev.uid        \* on a serial line the reply answers the oldest request of that unit
-                  exp == IF hit THEN {<<Head(fifo)[1], ev.uid>>} ELSE {} IN
+                  exp == IF hit /\ Head(fifo)[1] \notin cancelled THEN {<<Head(fifo)[1], ev.uid>>} ELSE {} IN
               [fail |-> twice \cup dupIn \cup (IF obs # exp THEN {IF hit THEN "Match" ELSE "Unsolicited"} ELSE {}),
                pending |-> pending, fifo |-> IF hit THEN Tail(fifo) ELSE fifo, connected |-> connected, issued |-> issued]
     [] ev.op = "lost" ->
-         LET exp == IF T.variant = "dict" THEN {<<pending[t], 1000>> : t \in DOMAIN pending}
-                    ELSE {<<fifo[k][1], 1000>> : k \in 1..Len(fifo)} IN
+         LET exp == IF T.variant = "dict" THEN {<<pending[t], 1000>> : t \in {x \in DOMAIN pending : pending[x] \notin cancelled}}
+                    ELSE {<<fifo[k][1], 1000>> : k \in {x \in 1..Len(fifo) : fifo[x][1] \notin cancelled}} IN
          [fail |-> twice \cup dupIn \cup (IF obs # exp THEN {"LossFailsAll"} ELSE {}),
           pending |-> <<>>, fifo |-> <<>>, connected |-> FALSE, issued |-> issued]
+    [] ev.op = "cancel" ->
+         [fail |-> twice \cup dupIn \cup (IF obs # {<<ev.d, 1004>>} THEN {"CancelFailsThatOne"} ELSE {}),
+          pending |-> pending, fifo |-> fifo, connected |-> connected, issued |-> issued]
     [] ev.op = "wrap" -> [fail |-> {}, pending |-> pending, fifo |-> fifo, connected |-> connected, issued |-> issued]
 
 Verdict(status, step, clauses, detail) ==
@@ -71,8 +81,9 @@ Step ==
      IN /\ IF f # {} THEN Verdict("FAIL", i, f, [pending |-> DOMAIN pending, op |-> ev.op]) /\ out' = "done"
            ELSE IF last THEN Verdict("OK", i, {}, [n |-> i]) /\ out' = "done" ELSE out' = "run"
         /\ pending' = e.pending /\ fifo' = e.fifo /\ connected' = e.connected /\ issued' = e.issued /\ firedSet' = nf
+        /\ cancelled' = IF ev.op = "cancel" THEN cancelled \cup {ev.d} ELSE cancelled
   /\ i' = i + 1 /\ UNCHANGED tr
 Empty == /\ out = "run" /\ Len(T.ev) = 0 /\ Verdict("OK", 0, {}, [n |-> 0]) /\ out' = "done"
-         /\ UNCHANGED <<tr, i, pending, fifo, connected, firedSet, issued>>
+         /\ UNCHANGED <<tr, i, pending, fifo, connected, firedSet, issued, cancelled>>
 Spec == Init /\ [][Step \/ Empty]_vars
 =============================================================================
